@@ -16,6 +16,8 @@ import (
 	"os"
 	"strconv"
 	"testing"
+
+	"github.com/tjfoc/gmsm/sm3"
 )
 
 type fixedReader struct{ b []byte }
@@ -255,8 +257,31 @@ func TestGvcBoundedVectors(t *testing.T) {
 		pk.X, pk.Y = c.ScalarBaseMult(d.Bytes())
 		return pk
 	}
+	// an ephemeral key whose public point has a coordinate with a leading zero byte (rare among random keys)
+	short := func(useY bool) *PrivateKey {
+		for {
+			k := mk()
+			v := k.X
+			if useY {
+				v = k.Y
+			}
+			if v.BitLen() <= 248 {
+				return k
+			}
+		}
+	}
 	for i := 0; i < rounds; i++ {
 		a, b, ra, rb := mk(), mk(), mk(), mk()
+		switch i {
+		case 0:
+			ra = short(true)
+		case 1:
+			rb = short(false)
+		case 2:
+			rb = short(true)
+		case 3:
+			ra = short(false)
+		}
 		ida := make([]byte, 1+rng.Intn(30))
 		rng.Read(ida)
 		idb := make([]byte, 1+rng.Intn(30))
@@ -275,6 +300,14 @@ func TestGvcBoundedVectors(t *testing.T) {
 			}
 			if !bytes.Equal(s1a, s1b) || !bytes.Equal(s2a, s2b) || len(s1a) != 32 || bytes.Equal(s1a, s2a) {
 				fail(tag + ":confirmation values")
+			}
+			// the values GM/T 0003.3 6.1 prescribes, recomputed from the formulas (A's view)
+			rk, rs1, rs2 := refKeyExchange(klen, ida, idb, a, &b.PublicKey, ra, &rb.PublicKey)
+			if rk == nil || !bytes.Equal(ka, rk) {
+				fail(tag + ":key differs from GM/T 0003.3")
+			}
+			if !bytes.Equal(s1a, rs1) || !bytes.Equal(s2a, rs2) {
+				fail(tag + ":confirmation values differ from GM/T 0003.3")
 			}
 			off := &PublicKey{Curve: c, X: new(big.Int).Set(ra.X), Y: new(big.Int).Add(ra.Y, big.NewInt(1))}
 			if _, _, _, err := KeyExchangeB(klen, ida, idb, b, &a.PublicKey, rb, off); err == nil {
@@ -309,9 +342,51 @@ func TestGvcBoundedVectors(t *testing.T) {
 		_, _ = Encrypt(&priv.PublicKey, nil, nonceReader(k), C1C3C2)
 	})
 	out, _ := json.Marshal(map[string]interface{}{"cases": cases, "failures": len(failing), "failing": failing,
-		"bound": fmt.Sprintf("GM/T 0003.5-2012 A.2 signature example (public key, ZA, e, r, s with the standard's nonce); %d random (key, message, id, nonce) tuples: signing equations recomputed with math/big, completeness, rejection of altered message / id / r / s / key / out-of-range values / non-strict DER; encryption round trips in both orderings with ASN.1 form and rejection of altered, short and foreign ciphertexts and of ASN.1 forms whose C1 coordinate was increased by multiples of 2^256 or made longer; key exchange between random parties: equal keys of the requested length, cross-matching confirmation values, error for an ephemeral point off the curve; keXHat against 2^127 + (x mod 2^127) for x of every byte length 0..32 (seed %d)", rounds, seed)})
+		"bound": fmt.Sprintf("GM/T 0003.5-2012 A.2 signature example (public key, ZA, e, r, s with the standard's nonce); %d random (key, message, id, nonce) tuples: signing equations recomputed with math/big, completeness, rejection of altered message / id / r / s / key / out-of-range values / non-strict DER; encryption round trips in both orderings with ASN.1 form and rejection of altered, short and foreign ciphertexts and of ASN.1 forms whose C1 coordinate was increased by multiples of 2^256 or made longer; key exchange between random parties and with ephemeral coordinates that have leading zero bytes: equal keys of the requested length, cross-matching confirmation values, key and confirmation values equal to a recomputation from the GM/T 0003.3 formulas, error for an ephemeral point off the curve; keXHat against 2^127 + (x mod 2^127) for x of every byte length 0..32 (seed %d)", rounds, seed)})
 	fmt.Println("GVCBOUNDED " + string(out))
 	if len(failing) > 0 {
 		t.Fail()
 	}
+}
+
+// refKeyExchange recomputes, from the formulas of GM/T 0003.3 6.1, what party A (own keys da, ra; peer's public keys pb,
+// rb) must obtain: K = KDF(xV || yV || ZA || ZB, klen) with V = [tA](PB + [x2~]RB), tA = dA + x1~ * rA mod n,
+// S1 = Hash(0x02 || yV || Hash(xV || ZA || ZB || x1 || y1 || x2 || y2)), S2 the same with 0x03.
+func refKeyExchange(klen int, ida, idb []byte, da *PrivateKey, pb *PublicKey, ra *PrivateKey, rb *PublicKey) (k, s1, s2 []byte) {
+	c := P256Sm2()
+	n := c.Params().N
+	pad := func(x *big.Int) []byte {
+		out := make([]byte, 32)
+		b := x.Bytes()
+		copy(out[32-len(b):], b)
+		return out
+	}
+	w := new(big.Int).Lsh(big.NewInt(1), 127)
+	hat := func(x *big.Int) *big.Int { return new(big.Int).Add(w, new(big.Int).Mod(x, w)) }
+	za, err1 := ZA(&da.PublicKey, ida)
+	zb, err2 := ZA(pb, idb)
+	if err1 != nil || err2 != nil {
+		return nil, nil, nil
+	}
+	t := new(big.Int).Mul(hat(ra.X), ra.D)
+	t.Add(t, da.D).Mod(t, n)
+	ux, uy := c.ScalarMult(rb.X, rb.Y, hat(rb.X).Bytes())
+	ux, uy = c.Add(pb.X, pb.Y, ux, uy)
+	vx, vy := c.ScalarMult(ux, uy, t.Bytes())
+	cat := func(parts ...[]byte) []byte {
+		var out []byte
+		for _, p := range parts {
+			out = append(out, p...)
+		}
+		return out
+	}
+	z := cat(pad(vx), pad(vy), za, zb)
+	for ct := uint32(1); len(k) < klen; ct++ {
+		k = append(k, sm3.Sm3Sum(cat(z, []byte{byte(ct >> 24), byte(ct >> 16), byte(ct >> 8), byte(ct)}))...)
+	}
+	k = k[:klen]
+	inner := sm3.Sm3Sum(cat(pad(vx), za, zb, pad(ra.X), pad(ra.Y), pad(rb.X), pad(rb.Y)))
+	s1 = sm3.Sm3Sum(cat([]byte{0x02}, pad(vy), inner))
+	s2 = sm3.Sm3Sum(cat([]byte{0x03}, pad(vy), inner))
+	return
 }
